@@ -324,3 +324,29 @@ def walk_no_nested(node):
 def calls_in(node, nested=False):
     it = ast.walk(node) if nested else walk_no_nested(node)
     return [n for n in it if isinstance(n, ast.Call)]
+
+
+def shape(func, node):
+    """Source text of `node` with the local variables of `func` replaced by `$` (the text that does not change when locals are
+    renamed).  Parameters, attributes, globals and callee names stay."""
+    if func is None or not isinstance(func, (ast.FunctionDef, ast.AsyncFunctionDef)):
+        func = enclosing_function(node) if not isinstance(node, (ast.FunctionDef, ast.AsyncFunctionDef)) else node
+    locals_ = {n.id for n in ast.walk(func) if isinstance(n, ast.Name) and isinstance(n.ctx, ast.Store)} if func is not None else set()
+    locals_ |= {a.arg for x in ast.walk(func) if isinstance(x, ast.Lambda) for a in x.args.args} if func is not None else set()
+
+    def clone(n):
+        if isinstance(n, list):
+            return [clone(x) for x in n]
+        if not isinstance(n, ast.AST):
+            return n
+        if isinstance(n, ast.Name) and n.id in locals_:
+            return ast.Name(id="__L__", ctx=ast.Load())
+        new = type(n)()
+        for f_ in n._fields:
+            if hasattr(n, f_):
+                setattr(new, f_, clone(getattr(n, f_)))
+        return new
+    try:
+        return ast.unparse(ast.fix_missing_locations(clone(node))).replace("__L__", "$")
+    except Exception:
+        return src(node)
